@@ -296,7 +296,15 @@ def hdr_ob(state, n, pad, kind):
                 cm.CryptoErrorChoice.fail_next = True
                 conn.receive_datagram(bad, cm.ADDR_C, now=0.5)
                 cm.CryptoErrorChoice.fail_next = False
-        if kind == "long":
+        if kind == "vn":
+            # Version Negotiation: version 0 and 1-3 versions filling the datagram exactly (the generic long
+            # harness never yields a parsable one: its tail is not a multiple of four bytes)
+            dl, sl = 8, [0, 8][sx.Choice("scid_len", 2)]
+            nv = 1 + sx.Choice("n_versions", 3)
+            m = 7 + dl + sl + 4 * nv
+            d = sx.Bytes("d", m, m)
+            sx.assume(sx.And(d[0] >= 0x80, d[1] == 0, d[2] == 0, d[3] == 0, d[4] == 0, d[5] == dl, d[6 + dl] == sl))
+        elif kind == "long":
             # long header with connection-ID lengths from {0, 8, 20, 21} (every other length is the
             # subject of C17.hdr.arbitrary; here the connection's reaction to the parsed packet matters)
             dl = [0, 8, 20, 21][sx.Choice("dcid_len", 4)]
@@ -357,6 +365,9 @@ def obligations(tier):
                 continue
             prep, run = hdr_ob(state, nh, False, kind)
             obs.append(Ob("C05.hdr.%s.%s" % (state, kind), run, hdr_shims, enc, bounds="every %s-header datagram of %s handed to a %s endpoint (long headers: CID lengths in {0,8,20,21}; the server's 1200-byte Initial size threshold is scaled down to the datagram size used); then transmit/timer/event calls" % (kind, ("header + token/length fields + 3 payload bytes + 16 tag bytes, all arbitrary, or truncated" if kind == "long" else "%d arbitrary bytes, or truncated to 12" % nh), state.replace("_", " ")), prepare=prep, budget_s=2400 if T else 250, max_decisions=1500, stubs=["CryptoPair -> transparent", "tls.Context -> nondeterministic stub", "get_retry_integrity_tag -> arbitrary tag", "SMALLEST_MAX_DATAGRAM_SIZE -> 1 (size threshold abstraction)"]))
+    for state in ("client_firstflight", "client_connected"):
+        prep, run = hdr_ob(state, nh, False, "vn")
+        obs.append(Ob("C05.hdr.%s.vn" % state, run, hdr_shims, enc + [Q + "_receive_version_negotiation_packet"], bounds="every Version Negotiation datagram with the endpoint's destination-ID length, source-ID length 0/8 and 1-3 arbitrary versions (all other bytes arbitrary) handed to a %s endpoint; then transmit/timer/event calls" % state.replace("_", " "), prepare=prep, budget_s=600 if T else 250, max_decisions=1500, stubs=["CryptoPair -> transparent", "tls.Context -> nondeterministic stub"]))
     for role in ("client", "server"):
         prep, run, fake = tp_ob(role)
         obs.append(Ob("C05.tp.%s" % role, run, (lambda fake=fake: cm.conn_shims(extra=[("pull_quic_transport_parameters", fake)])), [Q + "_alpn_handler", Q + "_parse_transport_parameters"], bounds="every transport-parameter set (each integer parameter absent or any value in [0,2^62), each CID parameter absent / arbitrary / the expected value, version_information with <= 2 versions) or a decoding failure", prepare=prep, budget_s=900 if T else 250, max_decisions=900, stubs=["pull_quic_transport_parameters -> any parameter set or ValueError (decided separately by C17.tp.*)"]))
